@@ -130,143 +130,221 @@ def check_tool(run, tool, defs, before, after, names, inp, shape_key):
     return True
 
 
-def run(run, binfo):
+def wire_defs(defs):
+    from loadsim import enc_defaults
+    return enc_defaults([(n, cs, dep, None) for n, cs, dep in defs])
+
+
+def wire_file(f):
+    from common import S, enc_jv
+    return [[S(k), enc_jv(v)] for k, v in f.items()]
+
+
+def from_jv(x):
+    from c16 import from_wire_jv
+    return from_wire_jv(x)
+
+
+def one_round(seed, root_a, root_b, wd):
+    """-> (violations, correspondence disagreements, evaluations, nontrivial keys, counts)"""
+    import random
     import warnings
     warnings.simplefilter('ignore')
     from oslo_config import cfg
     from oslo_policy import generator, policy
-    tier, rng = run.tier, run.rng
-    n = 120 if tier == 'quick' else 4000
-    root_a = fresh_root('c18a')
-    root_b = fresh_root('c18b')
-    wd = work_dir()
-    counts = {}
-    for i in range(n):
-        defs = mk_defaults(rng)
-        objs = build_defaults(defs)
-        names_new = [d[0] for d in defs]
-        # ---------------- upgrade
-        f = mk_file(rng, defs)
-        inp = {'defaults': defs, 'file': f}
-        src = os.path.join(wd, 'up_in.yaml')
-        dst = os.path.join(wd, 'up_out.yaml')
-        open(src, 'w').write(json.dumps(f))
-        fmt = rng.choice(['yaml', 'json'])
-        conf = cfg.ConfigOpts()
-        shape = 'alias-to-new' if any(isinstance(v, str) and v.startswith('rule:svc:') for v in f.values()) else \
-            ('split' if any(k == 'svc:write' for k in f) else 'plain')
+    from common import run_batch, unS
+    rng = random.Random(seed)
+
+    class R:
+        def __init__(self):
+            self.violations, self.evaluations, self.nontrivial, self.corr = [], 0, set(), []
+
+        def violation(self, key, desc, payload):
+            self.violations.append((key, desc, payload))
+
+        def count(self, *a):
+            pass
+    run = R()
+    defs = mk_defaults(rng)
+    objs = build_defaults(defs)
+    names_new = [d[0] for d in defs]
+    # ---------------- upgrade
+    f = mk_file(rng, defs)
+    inp = {'defaults': defs, 'file': f}
+    src = os.path.join(wd, 'up_in.yaml')
+    dst = os.path.join(wd, 'up_out.yaml')
+    open(src, 'w').write(json.dumps(f))
+    fmt = rng.choice(['yaml', 'json'])
+    conf = cfg.ConfigOpts()
+    shape = 'alias-to-new' if any(isinstance(v, str) and v.startswith('rule:svc:') for v in f.values()) else \
+        ('split' if any(k == 'svc:write' for k in f) else 'plain')
+    try:
+        with mock.patch.object(generator, 'get_policies_dict', return_value={'ns': objs}), \
+                contextlib.redirect_stderr(io.StringIO()):
+            generator.upgrade_policy(['--policy', src, '--namespace', 'ns', '--output-file', dst,
+                                      '--format', fmt], conf=conf)
+        out = policy.parse_file_contents(open(dst).read())
+        crashed = None
+    except Exception as ex:   # noqa
+        crashed = type(ex).__name__
+    if crashed:
+        run.violation('upgrade-crash:%s' % shape, 'oslopolicy-policy-upgrade failed with %s on %r' % (crashed, f),
+                      {'kind': 'failing-input', 'suite': 'spec-c18', 'input': dict(inp, tool='upgrade'),
+                       'expected': 'completes', 'observed': crashed})
+    else:
+        before = enforcer_for(root_a, defs, main=f)
+        after = enforcer_for(root_b, defs, main=out)
+        surviving = names_new + [k for k in out if k not in names_new]
+        check_tool(run, 'upgrade', defs, before, after, surviving, inp, shape)
+        m = run_batch([[17, 0, wire_defs(defs), wire_file(f)]])[0]
+        mo = {unS(p[0]): from_jv(p[1]) for p in m}
+        if mo != out:
+            run.corr.append((dict(inp, tool='upgrade'), mo, out))
+    # ---------------- convert json -> yaml
+    f = mk_file(rng, defs)
+    inp = {'defaults': defs, 'file': f}
+    src = os.path.join(wd, 'cv_in.json')
+    dst = os.path.join(wd, 'cv_out.yaml')
+    open(src, 'w').write(json.dumps(f))
+    shapes = sorted({value_shape(v) for v in f.values()}) or ['string']
+    shape = 'list-of-lists' if 'list-of-lists' in shapes else shapes[0]
+    conf = cfg.ConfigOpts()
+    try:
+        with mock.patch.object(generator, 'get_policies_dict', return_value={'ns': objs}):
+            generator.convert_policy_json_to_yaml(['--namespace', 'ns', '--policy-file', src,
+                                                   '--output-file', dst], conf=conf)
+        text = open(dst).read()
+        crashed = None
+    except Exception as ex:   # noqa
+        crashed = type(ex).__name__
+    if crashed:
+        run.violation('convert-crash:%s' % shape, 'oslopolicy-convert-json-to-yaml failed with %s on %r' % (crashed, f),
+                      {'kind': 'failing-input', 'suite': 'spec-c18', 'input': dict(inp, tool='convert'),
+                       'expected': 'completes', 'observed': crashed})
+    else:
+        before = enforcer_for(root_a, defs, main=f)
         try:
-            with mock.patch.object(generator, 'get_policies_dict', return_value={'ns': objs}), \
-                    contextlib.redirect_stderr(io.StringIO()):
-                generator.upgrade_policy(['--policy', src, '--namespace', 'ns', '--output-file', dst,
-                                          '--format', fmt], conf=conf)
-            out = policy.parse_file_contents(open(dst).read())
-            crashed = None
-        except Exception as ex:   # noqa
-            crashed = type(ex).__name__
-        counts['upgrade'] = counts.get('upgrade', 0) + 1
-        if crashed:
-            run.violation('upgrade-crash:%s' % shape, 'oslopolicy-policy-upgrade failed with %s on %r' % (crashed, f),
-                          {'kind': 'failing-input', 'suite': 'spec-c18', 'input': dict(inp, tool='upgrade'),
-                           'expected': 'completes', 'observed': crashed})
-        else:
-            before = enforcer_for(root_a, defs, main=f)
-            after = enforcer_for(root_b, defs, main=out)
-            surviving = names_new + [k for k in out if k not in names_new]
-            check_tool(run, 'upgrade', defs, before, after, surviving, inp, shape)
-        # ---------------- convert json -> yaml
-        f = mk_file(rng, defs)
-        inp = {'defaults': defs, 'file': f}
-        src = os.path.join(wd, 'cv_in.json')
-        dst = os.path.join(wd, 'cv_out.yaml')
-        open(src, 'w').write(json.dumps(f))
-        shapes = sorted({value_shape(v) for v in f.values()}) or ['string']
-        shape = 'list-of-lists' if 'list-of-lists' in shapes else shapes[0]
-        conf = cfg.ConfigOpts()
-        try:
-            with mock.patch.object(generator, 'get_policies_dict', return_value={'ns': objs}):
-                generator.convert_policy_json_to_yaml(['--namespace', 'ns', '--policy-file', src,
-                                                       '--output-file', dst], conf=conf)
-            text = open(dst).read()
-            crashed = None
-        except Exception as ex:   # noqa
-            crashed = type(ex).__name__
-        counts['convert'] = counts.get('convert', 0) + 1
-        if crashed:
-            run.violation('convert-crash:%s' % shape, 'oslopolicy-convert-json-to-yaml failed with %s on %r' % (crashed, f),
-                          {'kind': 'failing-input', 'suite': 'spec-c18', 'input': dict(inp, tool='convert'),
-                           'expected': 'completes', 'observed': crashed})
-        else:
-            before = enforcer_for(root_a, defs, main=f)
-            try:
-                after = enforcer_for(root_b, defs, main=text)
-                after.load_rules()
-                ok_after = True
-            except Exception as ex:   # noqa
-                ok_after = False
-                run.violation('convert-unloadable:%s' % shape, 'the converted file cannot be loaded (%s): %r'
-                              % (type(ex).__name__, text[:300]),
-                              {'kind': 'failing-input', 'suite': 'spec-c18', 'input': dict(inp, tool='convert'),
-                               'expected': 'a loadable policy file', 'observed': text[:500]})
-            if ok_after:
-                check_tool(run, 'convert', defs, before, after, names_new + [k for k in f if k not in names_new], inp,
-                           shape)
-        # ---------------- generator (merged policy) and list-redundant
-        f = mk_file(rng, [d for d in defs], allow_alias=False)
-        f = {k: v for k, v in f.items() if k in names_new or k == 'svc:unknown'}   # no override under a deprecated name
-        keys = list(f)
-        rng.shuffle(keys)
-        main = {k: f[k] for k in keys[:len(keys) // 2]}
-        dirf = {k: f[k] for k in keys[len(keys) // 2:]}
-        inp = {'defaults': defs, 'main': main, 'dir': dirf}
-        shapes = sorted({value_shape(v) for v in f.values()}) or ['string']
-        shape = 'list-of-lists' if 'list-of-lists' in shapes else shapes[0]
-        before = enforcer_for(root_a, defs, main=main, dirfiles={'ovr.json': dirf} if dirf else None)
-        dst = os.path.join(wd, 'gen_out.yaml')
-        try:
-            with mock.patch.object(generator, '_get_enforcer', return_value=before):
-                generator._generate_policy('ns', dst)
-            text = open(dst).read()
             after = enforcer_for(root_b, defs, main=text)
             after.load_rules()
-            crashed = None
+            ok_after = True
         except Exception as ex:   # noqa
-            crashed = type(ex).__name__
-        counts['generate'] = counts.get('generate', 0) + 1
-        if crashed:
-            run.violation('generate-crash:%s' % shape, 'oslopolicy-policy-generator output unusable (%s)' % crashed,
-                          {'kind': 'failing-input', 'suite': 'spec-c18', 'input': dict(inp, tool='generate'),
-                           'expected': 'completes', 'observed': crashed})
-        else:
-            check_tool(run, 'generate', defs, before, after, names_new + [k for k in f if k not in names_new], inp, shape)
-        # list-redundant: every reported rule can be deleted from the operator's files
-        before = enforcer_for(root_a, defs, main=main, dirfiles={'ovr.json': dirf} if dirf else None)
-        buf = io.StringIO()
-        with mock.patch.object(generator, '_get_enforcer', return_value=before), contextlib.redirect_stdout(buf):
-            generator._list_redundant('ns')
-        red = []
-        for line in buf.getvalue().splitlines():
-            if line.startswith('"'):
-                red.append(line.split('"')[1])
-        counts['redundant'] = counts.get('redundant', 0) + 1
-        main2 = {k: v for k, v in main.items() if k not in red}
-        dir2 = {k: v for k, v in dirf.items() if k not in red}
-        after = enforcer_for(root_b, defs, main=main2, dirfiles={'ovr.json': dir2} if dirf else None)
-        before = enforcer_for(root_a, defs, main=main, dirfiles={'ovr.json': dirf} if dirf else None)
-        if red:
-            run.count('redundant_reported', len(red))
-        check_tool(run, 'list-redundant', defs, before, after, names_new + ['svc:unknown'], dict(inp, reported=red), 'any')
-    run.extra['tool_runs'] = counts
+            ok_after = False
+            run.violation('convert-unloadable:%s' % shape, 'the converted file cannot be loaded (%s): %r'
+                          % (type(ex).__name__, text[:300]),
+                          {'kind': 'failing-input', 'suite': 'spec-c18', 'input': dict(inp, tool='convert'),
+                           'expected': 'a loadable policy file', 'observed': text[:500]})
+        if ok_after:
+            check_tool(run, 'convert', defs, before, after, names_new + [k for k in f if k not in names_new], inp,
+                       shape)
+            kept = yaml.safe_load(text) or {}
+            m = run_batch([[17, 1, wire_defs(defs), wire_file(f)]])[0]
+            mo = {unS(p[0]): from_jv(p[1]) for p in m}
+            if mo != kept:
+                run.corr.append((dict(inp, tool='convert'), mo, kept))
+    # ---------------- generator (merged policy) and list-redundant
+    f = mk_file(rng, [d for d in defs], allow_alias=False)
+    f = {k: v for k, v in f.items() if k in names_new or k == 'svc:unknown'}   # no override under a deprecated name
+    keys = list(f)
+    rng.shuffle(keys)
+    main = {k: f[k] for k in keys[:len(keys) // 2]}
+    dirf = {k: f[k] for k in keys[len(keys) // 2:]}
+    inp = {'defaults': defs, 'main': main, 'dir': dirf}
+    shapes = sorted({value_shape(v) for v in f.values()}) or ['string']
+    shape = 'list-of-lists' if 'list-of-lists' in shapes else shapes[0]
+    before = enforcer_for(root_a, defs, main=main, dirfiles={'ovr.json': dirf} if dirf else None)
+    dst = os.path.join(wd, 'gen_out.yaml')
+    try:
+        with mock.patch.object(generator, '_get_enforcer', return_value=before):
+            generator._generate_policy('ns', dst)
+        text = open(dst).read()
+        after = enforcer_for(root_b, defs, main=text)
+        after.load_rules()
+        crashed = None
+    except Exception as ex:   # noqa
+        crashed = type(ex).__name__
+    if crashed:
+        run.violation('generate-crash:%s' % shape, 'oslopolicy-policy-generator output unusable (%s)' % crashed,
+                      {'kind': 'failing-input', 'suite': 'spec-c18', 'input': dict(inp, tool='generate'),
+                       'expected': 'completes', 'observed': crashed})
+    else:
+        check_tool(run, 'generate', defs, before, after, names_new + [k for k in f if k not in names_new], inp, shape)
+        fr = dict(main)
+        fr.update(dirf)
+        got = yaml.safe_load(text) or {}
+        m = run_batch([[17, 2, wire_defs(defs), wire_file(fr)]])[0]
+        mo = {unS(p[0]): from_jv(p[1]) for p in m}
+        if mo != got:
+            run.corr.append((dict(inp, tool='generate'), mo, got))
+    # list-redundant: every reported rule can be deleted from the operator's files
+    before = enforcer_for(root_a, defs, main=main, dirfiles={'ovr.json': dirf} if dirf else None)
+    buf = io.StringIO()
+    with mock.patch.object(generator, '_get_enforcer', return_value=before), contextlib.redirect_stdout(buf):
+        generator._list_redundant('ns')
+    red = []
+    for line in buf.getvalue().splitlines():
+        if line.startswith('"'):
+            red.append(line.split('"')[1])
+    fr = dict(main)
+    fr.update(dirf)
+    m = run_batch([[17, 3, wire_defs(defs), wire_file(fr)]])[0]
+    if sorted(unS(x) for x in m) != sorted(red):
+        run.corr.append((dict(inp, tool='list-redundant'), sorted(unS(x) for x in m), sorted(red)))
+    main2 = {k: v for k, v in main.items() if k not in red}
+    dir2 = {k: v for k, v in dirf.items() if k not in red}
+    after = enforcer_for(root_b, defs, main=main2, dirfiles={'ovr.json': dir2} if dirf else None)
+    before = enforcer_for(root_a, defs, main=main, dirfiles={'ovr.json': dirf} if dirf else None)
+    check_tool(run, 'list-redundant', defs, before, after, names_new + ['svc:unknown'], dict(inp, reported=red), 'any')
+    return run.violations, run.corr, run.evaluations, run.nontrivial, len(red)
+
+
+def _worker(args):
+    idx, seeds = args
+    import common
+    common.setup_impl()
+    common.WORK = os.path.join(common.VERIF, '_work', 'c18_%d_%d' % (os.getppid(), idx))
+    root_a = fresh_root('c18a_%d' % idx)
+    root_b = fresh_root('c18b_%d' % idx)
+    wd = work_dir()
+    out = [one_round(sd, root_a, root_b, wd) for sd in seeds]
+    shutil.rmtree(common.WORK, ignore_errors=True)
+    return out
+
+
+def run(run, binfo):
+    tier, rng = run.tier, run.rng
+    n = 160 if tier == 'quick' else 4000
+    seeds = [rng.randrange(10 ** 9) for _ in range(n)]
+    import multiprocessing as mp
+    nproc = 14
+    chunks = [(i, seeds[i::nproc]) for i in range(nproc)]
+    with mp.get_context('fork').Pool(nproc) as pool:
+        parts = pool.map(_worker, chunks)
+    bad_corr = []
+    nred = 0
+    for part in parts:
+        for viols, corr, evals, nontriv, red in part:
+            run.evaluations += evals
+            run.nontrivial |= nontriv
+            nred += red
+            for v in viols:
+                run.violation(*v)
+            bad_corr += corr
+    run.count('rounds', n)
+    run.count('redundant_reported', nred)
     run.sample({'defaults': mk_defaults(rng)})
+    run.extra['correspondence_disagreements'] = len(bad_corr)
+    if bad_corr and not run.violations:
+        c, m, o = bad_corr[0]
+        run.violation('correspondence:S8', 'model and implementation disagree on a tool\'s output',
+                      {'kind': 'broken-obligation', 'obligation': 'correspondence suite S8 (rewriting tools)',
+                       'input': c, 'model': m, 'observed': o, 'count': len(bad_corr)})
     run.rule = ('%d rounds, each: a default set (plain / renamed one-to-one / one deprecated name split into several / changed '
                 'default under the same name / mixed) and valid non-self-conflicting operator files (string and list-of-lists '
                 'values, registered / deprecated / unknown names, aliases old -> rule:new, textual variants of the default); '
                 'upgrade and convert through their console entry points (stevedore replaced), generator and list-redundant on an '
                 'enforcer with a main file and a directory override; decisions of an Enforcer on the original policy vs on the '
-                'tool output for every surviving name x %d role subsets. non-trivial = cases with a non-constant decision'
-                % (n, len(ROLESETS)))
-    shutil.rmtree(root_a, ignore_errors=True)
-    shutil.rmtree(root_b, ignore_errors=True)
+                'tool output for every surviving name x %d role subsets; tool output vs the model (resulting mapping / kept rules / '
+                'reported names). non-trivial = cases with a non-constant decision' % (n, len(ROLESETS)))
 
 
 def replay(run, rep):
